@@ -352,3 +352,21 @@ Proof.
   - intros es T E R B. cbv zeta. split; [apply timeout_needs_budget; assumption|]. apply (stale_is_age k c s es TH T E R B).
   - intros n P C B. apply (budget_aborts k c s n TH P C B).
 Qed.
+
+(* Retransmission is driven by the sender's own timer passes only: whatever the
+   peer sends in between (data, duplicate ACKs, window updates, injected
+   segments), as long as nothing advances snd_una the number of
+   retransmissions made so far is floor(stale / retx_threshold) — one every
+   retx_threshold passes — and the pass counter is stale mod retx_threshold. *)
+Lemma retransmit_every_threshold_lemma k c s es :
+  1 <= retx_threshold k ->
+  timed_out (tcb_of c s) = false -> esa (tcb_of c s) = 0 -> retx (tcb_of c s) = 0 ->
+  (forall p q, es = p ++ q -> stale k s c p < retx_threshold k * (retx_max k + 1)) ->
+  let t := tcb_of (crun k c es) s in
+  retx t = stale k s c es / retx_threshold k /\ esa t = stale k s c es mod retx_threshold k.
+Proof.
+  intros TH T E R B. destruct (stale_is_age k c s es TH T E R B) as (A & L & _). cbv zeta in *.
+  set (t := tcb_of (crun k c es) s) in *. split.
+  - apply (N.div_unique _ _ _ (esa t)); [exact L|]. rewrite A. lia.
+  - apply (N.mod_unique _ _ (retx t)); [exact L|]. rewrite A. lia.
+Qed.
